@@ -253,7 +253,7 @@ const PRIMITIVES: [&str; 17] = ["bool", "usize", "u8", "str", "char", "isize", "
 /// (program name, role, module body with `§P` for the name, `run` body); the definitions sit in a module of their own
 /// whose only other names are `super::V` (all std traits) and `super::Yes` (all operators), so the scaffolding itself
 /// never mentions a primitive inside that module
-const PRIM_PROGS: [(&str, &str, &str, &str); 5] = [
+const PRIM_PROGS: [(&str, &str, &str, &str); 7] = [
     ("std-traits-enum", "Type", "#[derive_ex(Clone, Debug, Default, Ord, PartialOrd, Eq, PartialEq, Hash)]\npub enum §P { #[default] A, B(super::V, super::V), C { q: super::V } }\n",
      "let vals = [m::§P::A, m::§P::B(V(1), V(2)), m::§P::B(V(1), V(3)), m::§P::C { q: V(0) }];\nfor a in &vals { for b in &vals { out.push_str(&::std::format!(\"{}{:?}{:?},\", a == b, ::core::cmp::PartialOrd::partial_cmp(a, b), ::core::cmp::Ord::cmp(a, b))); } out.push_str(&::std::format!(\"{:?}|{:#?}|{}|{:?};\", a, ::core::clone::Clone::clone(a), dxrt::RecHasher::of(a), <m::§P as ::core::default::Default>::default())); }"),
     ("std-traits-struct", "Type", "#[derive_ex(Clone, Debug, Default, Ord, PartialOrd, Eq, PartialEq, Hash)]\npub struct §P(pub super::V, #[ord(key = $.0)] pub super::V);\n",
@@ -264,6 +264,11 @@ const PRIM_PROGS: [(&str, &str, &str, &str); 5] = [
      "let vals = [m::X::<V>::A, m::X::B(V(1), V(2)), m::X::B(V(2), V(0)), m::X::C { q: ::core::option::Option::Some(V(0)) }];\nfor a in &vals { for b in &vals { out.push_str(&::std::format!(\"{}{:?}{:?},\", a == b, ::core::cmp::PartialOrd::partial_cmp(a, b), ::core::cmp::Ord::cmp(a, b))); } out.push_str(&::std::format!(\"{:?}|{:#?}|{}|{:?};\", a, ::core::clone::Clone::clone(a), dxrt::RecHasher::of(a), <m::X<V> as ::core::default::Default>::default())); }"),
     ("operators-generic-struct", "TypeParam", "#[derive_ex(Add, SubAssign, Neg, Not, Clone)]\npub struct X<§P>(pub §P, pub super::Yes);\n",
      "let a = m::X(Yes, Yes); let b = m::X(Yes, Yes); let mut c = &a + &b; c -= &a; c -= ::core::clone::Clone::clone(&a); let d = -&c; let e = !d; let _ = (a + b) + &e; out.push_str(\"ok\");"),
+    // every nested helper function that `by = ..` generates (signatures mention bool / Option / Ordering / Hasher)
+    ("by-helpers-struct", "Type", "#[derive_ex(Ord, PartialOrd, Eq, PartialEq, Hash)]\npub struct §P(#[ord(by = ::core::cmp::Ord::cmp)] #[hash(by = ::core::hash::Hash::hash)] pub super::V, #[ord(by = ::core::cmp::Ord::cmp)] #[partial_ord(by = ::core::cmp::PartialOrd::partial_cmp)] #[hash(by = ::core::hash::Hash::hash)] pub super::V, #[ord(by = ::core::cmp::Ord::cmp)] #[eq(by = ::core::cmp::PartialEq::eq)] #[hash(by = ::core::hash::Hash::hash)] pub super::V, #[ord(by = ::core::cmp::Ord::cmp)] #[partial_eq(by = ::core::cmp::PartialEq::eq)] #[hash(by = ::core::hash::Hash::hash)] pub super::V);\n",
+     "let vals = [m::§P(V(1), V(2), V(0), V(1)), m::§P(V(1), V(3), V(0), V(1)), m::§P(V(1), V(3), V(1), V(0)), m::§P(V(0), V(3), V(1), V(1))];\nfor a in &vals { for b in &vals { out.push_str(&::std::format!(\"{}{:?}{:?},\", a == b, ::core::cmp::PartialOrd::partial_cmp(a, b), ::core::cmp::Ord::cmp(a, b))); } out.push_str(&::std::format!(\"{};\", dxrt::RecHasher::of(a))); }"),
+    ("by-helpers-generic-struct", "TypeParam", "#[derive_ex(Ord, PartialOrd, Eq, PartialEq, Hash)]\npub struct X<§P>(#[ord(by = ::core::cmp::Ord::cmp)] #[hash(by = ::core::hash::Hash::hash)] pub super::V, #[ord(by = ::core::cmp::Ord::cmp)] #[partial_ord(by = ::core::cmp::PartialOrd::partial_cmp)] #[hash(by = ::core::hash::Hash::hash)] pub super::V, #[ord(by = ::core::cmp::Ord::cmp)] #[eq(by = ::core::cmp::PartialEq::eq)] #[hash(by = ::core::hash::Hash::hash)] pub super::V, #[ord(by = ::core::cmp::Ord::cmp)] #[partial_eq(by = ::core::cmp::PartialEq::eq)] #[hash(by = ::core::hash::Hash::hash)] pub super::V, pub §P);\n",
+     "let vals = [m::X(V(1), V(2), V(0), V(1), V(0)), m::X(V(1), V(3), V(0), V(1), V(0)), m::X(V(1), V(3), V(1), V(0), V(0)), m::X(V(0), V(3), V(1), V(1), V(0))];\nfor a in &vals { for b in &vals { out.push_str(&::std::format!(\"{}{:?}{:?},\", a == b, ::core::cmp::PartialOrd::partial_cmp(a, b), ::core::cmp::Ord::cmp(a, b))); } out.push_str(&::std::format!(\"{};\", dxrt::RecHasher::of(a))); }"),
 ];
 
 /// A blanket trait whose BY-VALUE methods carry the names of methods generated code might call with method syntax
@@ -305,7 +310,9 @@ fn primitive_names(ctx: &Ctx, rep: &mut Report, only: Option<(usize, String)>) {
     let mut neutral: Vec<Option<String>> = vec![None; PRIM_PROGS.len()];
     for (k, (pi, n)) in todo.iter().enumerate() {
         if n == "Neutral" {
-            if res[k].output.is_none() {
+            // a neutral program that rustc refuses is a verdict (the case loop below reports it), not a machinery failure:
+            // it uses documented features only and sits next to sibling modules `core` / `std` / `alloc`
+            if res[k].output.is_none() && res[k].compiled() {
                 crate::report::machinery(&format!("C13: the neutral primitive-name program `{}` does not compile/run: {}", PRIM_PROGS[*pi].0, res[k].codes()));
             }
             neutral[*pi] = res[k].output.clone();
@@ -318,7 +325,10 @@ fn primitive_names(ctx: &Ctx, rep: &mut Report, only: Option<(usize, String)>) {
         rep.validated += 1;
         let (pname, role, _, _) = PRIM_PROGS[*pi];
         rep.case(&progs[k], n != "Neutral");
-        if n == "Neutral" {
+        if n == "Neutral" && res[k].compiled() {
+            continue;
+        }
+        if n != "Neutral" && neutral[*pi].is_none() {
             continue;
         }
         let what = format!("primitive-name program `{pname}`, {role} named `{n}`");
@@ -412,7 +422,7 @@ fn macro_generated(ctx: &Ctx, rep: &mut Report, only: Option<(usize, String)>) {
     let mut neutral: Vec<Option<String>> = vec![None; MACRO_PROGS.len()];
     for (k, (pi, f)) in todo.iter().enumerate() {
         if f.is_none() {
-            if res[k].output.is_none() {
+            if res[k].output.is_none() && res[k].compiled() {
                 crate::report::machinery(&format!("C13: the directly written program `{}` does not compile/run: {}", MACRO_PROGS[*pi].0, res[k].codes()));
             }
             neutral[*pi] = res[k].output.clone();
@@ -424,7 +434,13 @@ fn macro_generated(ctx: &Ctx, rep: &mut Report, only: Option<(usize, String)>) {
         rep.stats.terminals += 1;
         rep.validated += 1;
         rep.case(&progs[k], f.is_some());
-        let Some(f) = f else { continue };
+        if f.is_none() && res[k].compiled() {
+            continue;
+        }
+        if f.is_some() && neutral[*pi].is_none() {
+            continue;
+        }
+        let f = f.unwrap_or("(none: written directly)");
         let pname = MACRO_PROGS[*pi].0;
         let what = format!("program `{pname}` generated by a macro_rules! macro (derive_ex in the macro body; names as ident fragments, the field type as a `{f}` fragment)");
         let mut atoms = BTreeSet::new();
@@ -494,7 +510,7 @@ pub fn run(ctx: &Ctx, rep: &mut Report) {
     for (k, &i) in run_idx.iter().enumerate() {
         if cases[i].renames.is_empty() && cases[i].scope == Scope::Plain {
             neutral[cases[i].prog] = res_run[k].output.clone();
-            if res_run[k].output.is_none() {
+            if res_run[k].output.is_none() && res_run[k].compiled() {
                 crate::report::machinery(&format!("C13: the neutral base program `{}` does not compile/run: {} {:?}", PROGS[cases[i].prog].name, res_run[k].codes(), res_run[k].errors().iter().map(|e| runner::first_line(&e.message)).collect::<Vec<_>>()));
             }
         }
@@ -537,7 +553,7 @@ pub fn run(ctx: &Ctx, rep: &mut Report) {
             rep.violation(Violation { symptom: "panic".into(), atoms, what: format!("{what}: {pn}"), detail, standalone: None });
             continue;
         }
-        let want = neutral[c.prog].clone().unwrap_or_default();
+        let Some(want) = neutral[c.prog].clone() else { continue };
         let got = r.output.clone().unwrap_or_default();
         rep.inner_evaluations += 1;
         if got != want {
